@@ -169,6 +169,29 @@ fn verify_case(
             return;
         }
     }
+    // the same verdicts when the path is a symbolic link to the file
+    if recorded_hash == truth || recorded_size != Some(real_len) {
+        let ldir = dir.join("lnk");
+        let _ = std::fs::create_dir_all(&ldir);
+        let link = ldir.join(name);
+        let _ = std::fs::remove_file(&link);
+        if std::os::unix::fs::symlink(&path, &link).is_ok() {
+            let r = guard(|| {
+                let mut d = Distinfo::new();
+                d.insert(Entry::new(name, &link, vec![Checksum::new(digest_of(algo), recorded_hash.to_string())], if patch { None } else { recorded_size }));
+                (d.verify_size(&link).map_err(|e| err_json(&e)), d.verify_checksum(&link, digest_of(algo)).map(|d| d.to_string()).map_err(|e| err_json(&e)), Distinfo::calculate_size(&link).map_err(|e| err_json(&e)))
+            });
+            let _ = std::fs::remove_file(&link);
+            if let Ok((vs, vc, cs)) = r {
+                let size_ok = if patch || recorded_size.is_none() { vs.is_err() } else { vs.is_ok() == (recorded_size == Some(real_len)) };
+                let ck_ok = vc.is_ok() == (recorded_hash == truth);
+                if !(size_ok && ck_ok && cs == Ok(real_len)) {
+                    bad("verification through a symbolic link must see the file, not the link", json!({"size_matches": recorded_size == Some(real_len), "hash_matches": recorded_hash == truth, "len": real_len}), json!(format!("{:?} {:?} {:?}", vs, vc, cs)));
+                    return;
+                }
+            }
+        }
+    }
     let key = format!(
         "{}/hash-{}/size-{}",
         if patch { "patch" } else { "distfile" },
@@ -198,6 +221,14 @@ fn contents(max_lines: usize) -> Vec<Vec<u8>> {
     out.push(b"a\n$NetBSD$".to_vec());
     out.push(b"a\n# $NetBSD".to_vec());
     out.push(b"$NetBSD".to_vec());
+    // scale: files larger than any plausible read buffer
+    for len in [4095usize, 4096, 4097, 65_535, 65_536, 65_537, 1_048_577] {
+        let mut c: Vec<u8> = (0..len).map(|i| ((i * 31 + 7) % 251) as u8).collect();
+        // a marker line in the middle and an unterminated tail
+        let mid = len / 2;
+        c.splice(mid..mid, b"\n+ $NetBSD: big,v 1.1 $\n".iter().copied());
+        out.push(c);
+    }
     out
 }
 
